@@ -266,6 +266,8 @@ def run(ck, tier):
     _infl.run(ck, F, 'C09')
     from . import mustpass as _mp
     _mp.run(ck, F, 'C09')
+    from . import accum as _acc2
+    _acc2.run2(ck, F, 'C09')
     from . import accum as _acc
     _acc.run(ck, F, 'C09')
     run_recursion(ck, F)
